@@ -28,6 +28,9 @@ func ParseTextStream(scanner *bufio.Scanner) (*BulkElement, error) {
 				parts := strings.Split(text, ",")
 				for _, part := range parts {
 					parts2 := strings.Split(part, "=")
+					if len(parts2) != 2 {
+						return nil, errors.New("invalid header, expected key=value, got '" + part + "'")
+					}
 					switch parts2[0] {
 					case "ik":
 						if bulkElement.IdempotencyKey != "" {
@@ -48,7 +51,7 @@ func ParseTextStream(scanner *bufio.Scanner) (*BulkElement, error) {
 					bulkElement.Data = TransactionRequest{
 						Script: ledgercontroller.ScriptV1{
 							Script: vm.Script{
-								Plain: plain[:len(plain)-1], // remove last \n
+								Plain: strings.TrimSuffix(plain, "\n"), // remove last \n
 							},
 						},
 					}
@@ -65,7 +68,7 @@ func ParseTextStream(scanner *bufio.Scanner) (*BulkElement, error) {
 				bulkElement.Data = TransactionRequest{
 					Script: ledgercontroller.ScriptV1{
 						Script: vm.Script{
-							Plain: plain[:len(plain)-1], // remove last \n
+							Plain: strings.TrimSuffix(plain, "\n"), // remove last \n
 						},
 					},
 				}
